@@ -191,6 +191,20 @@ CHECKS['C07'] = dict(
     technique='symbolic execution of the Python source with havoc\'d Newton update (memoryless-loop induction) + Z3 per path',
 )
 
+CHECKS['C09'] = dict(
+    level='model_checking',
+    text='Symbolic execution of SP.__init__/IK/_IKHelper/move/spinCustom/FK and of the kernels SPIKinSpace / SPFKinSpaceR on a '
+         'platform with rational plate-fixed joint coordinates and BOTH plate poses symbolic: squared leg lengths = squared '
+         'joint-to-joint distances, published joints = pose applied to plate-fixed coordinates, invariance under a common '
+         'symbolic rigid motion; FK fixed point: started where IK left the platform, both FK solvers return the pose and the '
+         'requested lengths (fresh, moved by a symbolic rigid motion, re-spun by a symbolic angle); one Newton iteration from '
+         'an arbitrary guess with a havocked linear solve: the kernel stops only if the residual or EVERY step component is '
+         'below tolerance. Convergence from the neutral pose over the geometry ranges of the property is NOT encodable: '
+         'differential concrete sampling (1500 / 10000 platforms x poses) only.',
+    design='5/C09',
+    technique='symbolic execution of the Python source + Z3 per path (bounded: one geometry, iteration cap 3); concrete sampling for solver convergence',
+)
+
 NOT_APPLICABLE = {
 }
 
